@@ -468,7 +468,7 @@ class LogicalLinkController(object):
                 cipher.calculate_session_key(rcvd_dps.ecpk, rn_t=rcvd_dps.rn)
                 self.sec = cipher
 
-            send_pdu = self.collect(delay=0.01)
+            send_pdu = self.collect(delay=self._pause(0.01))
             self.link.ESTABLISHED = True
             while not terminate():
                 if send_pdu is None:
@@ -481,9 +481,9 @@ class LogicalLinkController(object):
                     return self.terminate(reason="remote choice")
                 symm += 1 if rcvd_pdu.name == "SYMM" else 0
                 self.dispatch(rcvd_pdu)
-                send_pdu = self.collect(delay=0.001)
+                send_pdu = self.collect(delay=self._pause(0.001))
                 if send_pdu is None and symm >= 10:
-                    send_pdu = self.collect(delay=0.05)
+                    send_pdu = self.collect(delay=self._pause(0.05))
             else:
                 self.link.DISCONNECT = True
                 self.terminate(reason="local choice")
@@ -544,9 +544,9 @@ class LogicalLinkController(object):
                     return self.terminate(reason="remote choice")
                 symm += 1 if isinstance(rcvd_pdu, pdu.Symmetry) else 0
                 self.dispatch(rcvd_pdu)
-                send_pdu = self.collect(delay=0.001)
+                send_pdu = self.collect(delay=self._pause(0.001))
                 if send_pdu is None and symm >= 10:
-                    send_pdu = self.collect(delay=0.05)
+                    send_pdu = self.collect(delay=self._pause(0.05))
                 if send_pdu is None:
                     send_pdu = pdu.Symmetry()
                 rcvd_pdu = self.exchange(send_pdu, recv_timeout)
@@ -572,6 +572,17 @@ class LogicalLinkController(object):
             raise SystemExit
         finally:
             log.debug("llc run loop terminated on target")
+
+    def _pause(self, delay):
+        # The run loop must not sit idle for longer than what was
+        # promised to the peer: the link timeout sent with the PAX
+        # parameters and, as NFC-DEP Target, the response waiting
+        # time sent with the ATR_RES. Two pauses can follow each other
+        # (regular and idle), so each gets a quarter.
+        limit = 0.25E-3 * self.cfg["send-lto"]
+        if isinstance(self.mac, nfc.dep.Target) and self.mac.rwt:
+            limit = min(limit, 0.25 * self.mac.rwt)
+        return min(delay, limit)
 
     def collect(self, delay=None):
         # Collect a single PDU or multiple PDUs if aggregation is enabled.
